@@ -1,6 +1,6 @@
 #!/bin/bash
 # run every registered quick check on /repo and summarise
-cd /verif
+cd "$(dirname "$0")/.."
 for P in $(python3 -c "import json;print(' '.join(c['property_id'] for c in json.load(open('MANIFEST.json'))['checks']))"); do
   s=$(date +%s); out=$(timeout 3000 python3 check.py $P --tier ${1:-quick} 2>&1 | grep -E "^(OK|VIOLATION|KNOWN-FINDING|INFRA)" | cut -c1-150 | tr '\n' '|'); e=$(date +%s)
   echo "$P $((e-s))s $out"
